@@ -1011,9 +1011,10 @@ func (dsc *dataStoreCommand) randomKey() (output respValue) {
 		l := len(dsc.ds.data.buckets)
 		n := rand.Intn(l)
 
-		for {
+		// (one round over the table: keys whose time to live has run out are skipped, and there may be no other)
+		for tries := 0; tries < l; tries++ {
 			item := dsc.ds.data.buckets[n]
-			if item != nil {
+			if item != nil && !item.value.(*storeKey).isExpiredUnlocked() {
 				output.data = respBulkString(item.key)
 				return
 			}
